@@ -225,7 +225,12 @@ pub fn random_cfg(name: &str, rng: &mut Rng, vary: bool) -> Box<dyn CfgI> {
 				rng.pick(SOURCES).to_string()
 			} else if v.is_u64() {
 				let n = v.as_u64().unwrap();
-				match rng.below(5) {
+				// YV_CFG_WIDE: parameter orders the defaults never have (a secondary period larger than the main one, ...)
+				let wide = std::env::var("YV_CFG_WIDE").is_ok();
+				match rng.below(if wide { 8 } else { 5 }) {
+					5 => (n * 2 + rng.below(4)).min(200).to_string(),
+					6 => rng.range(20, 60).to_string(),
+					7 => rng.range(1, 4).to_string(),
 					0 => n.to_string(),
 					1 => (n / 2).max(1).to_string(),
 					2 => (n + rng.below(5)).to_string(),
